@@ -173,4 +173,17 @@ CHECKS = {
         assumptions=["methods named Set*/Add*/Update*/Del*/Delete*/FromBytes/Unmarshal/Marshal are mutators and not called", "interfaces/netlink/socket functions are outside the statement"],
         exhaustive_note="all byte strings of length <= 2 for each entry point",
     ),
+    "C08": dict(
+        title="Decoded messages own their memory; encoded output is a fresh buffer",
+        stages=[dict(name="own", shards=S16, timeout={"quick": 1200, "thorough": 7200})],
+        rule="accepted inputs: generated DHCPv6 messages/relay chains over every typed option (per-code hit counts in evidence), hand-built name-bearing messages (domain search list, FQDN, NTP FQDN; compressed, "
+             "partial, nested in IA, inside relays), generated and non-canonical DHCPv4 packets; each followed by the overwrite patterns {all-zero, all-0xFF, 0x05, 0x3F, 0x01 (small lengths), seeded random, next packet of "
+             "the batch} on the source buffer, 64 extra random patterns on the exact byte range a poison fault touched, and inversion of every byte of the slice returned by ToBytes. Shape = family + kind set / option codes; "
+             "non-trivial iff the message holds a name-bearing, nested or variable-length option.",
+        technique="page-protection poison sanitizer (decode from an mmap copy, mprotect PROT_NONE, run all observers with SetPanicOnFault) to find stale reads + scribble differential of full observer snapshots before/after overwriting the source and output buffers to decide",
+        level_text="Snapshot S0 = results of every reflectively reachable read-only method (incl. ToBytes, Summary, String, accessors; exported fields only) + builders/helpers; after each overwrite pattern the snapshot must be "
+                   "identical. A poison fault localises the aliasing reader (stack + input offset); it becomes a violation only when a pattern makes an observable difference, otherwise it is counted as a suspect.",
+        level_note="Only API-observable state is compared (unexported fields are not rendered). Option-level ToBytes of byte-slice options returns the option's own slice by design; the output clause is checked at message level.",
+        assumptions=["observers as enumerated by harness/obs (mutators excluded)"],
+    ),
 }
